@@ -23,6 +23,8 @@ type Case struct {
 	// Bound: id holes only, plain names only: the program is preceded by lets
 	// that bind that very name (a quoted name is never a reference to a binding).
 	Bound bool `json:"bound,omitempty"`
+	// Bare: id holes only, plain names only: the name is written without back quotes.
+	Bare bool `json:"bare,omitempty"`
 }
 
 func init() {
@@ -83,6 +85,9 @@ var skels = []skel{
 		return Query("T", &Op{K: "render", Name: Ident{Name: "linechart"}, With: true, Props: []Prop{
 			{Name: Ident{Name: "ymin"}, Val: Un("-", Num("1"))}, {Name: Ident{Name: "title"}, Val: h}, {Name: Ident{Name: "ymax"}, Val: Un("-", Num("5"))},
 			{Name: Ident{Name: "legend"}, Val: Call("strcat", Name("x"), Name("y"))}, {Name: Ident{Name: "kind"}, Val: Name("stacked")}}})
+	}},
+	{"after-strings", "str", func(h *E, _ Ident) *Program {
+		return Query("T", &Op{K: "where", X: Bin("and", Bin("==", Name("a"), Str("'plain'", "plain")), Bin("==", Name("b"), Str("\"other\"", "other")))}, &Op{K: "where", X: Bin("==", Name("c"), h)}, &Op{K: "extend", Cols: []Col{{Name: idp("d"), X: Str("'tail'", "tail")}}})
 	}},
 	{"let", "str", func(h *E, _ Ident) *Program {
 		return &Program{Stmts: []*Stmt{{LetName: idp("v"), LetX: h}, {Pipe: &Pipe{Table: Ident{Name: "T"}, Ops: []*Op{{K: "where", X: Bin("==", Name("a"), Name("v"))}}}}}}
@@ -210,6 +215,12 @@ var skels = []skel{
 	}},
 	{"join-key", "id", func(_ *E, id Ident) *Program {
 		return Query("T", &Op{K: "join", Right: &Pipe{Table: Ident{Name: "U"}}, Conds: []*E{Bin("==", &E{K: "name", Parts: []Ident{{Name: "$left"}, id}}, &E{K: "name", Parts: []Ident{{Name: "$right"}, id}})}})
+	}},
+	{"join-keys-3", "id", func(_ *E, id Ident) *Program {
+		return Query("T", &Op{K: "join", Right: &Pipe{Table: Ident{Name: "U"}}, Conds: []*E{Name("k1"), &E{K: "name", Parts: []Ident{id}}, Name("k3")}})
+	}},
+	{"after-quoted-id", "id", func(_ *E, id Ident) *Program {
+		return &Program{Stmts: []*Stmt{{Pipe: &Pipe{Table: Ident{Name: "my table", Quoted: true}, Ops: []*Op{{K: "where", X: Bin("==", QName("plain name"), &E{K: "name", Parts: []Ident{id}})}, {K: "project", Cols: []Col{{Name: &id}, {Name: &Ident{Name: "z z", Quoted: true}, X: &E{K: "name", Parts: []Ident{id}}}}}}}}}}
 	}},
 	{"join-qualifier", "id", func(_ *E, id Ident) *Program {
 		return Query("T", &Op{K: "join", Right: &Pipe{Table: Ident{Name: "U"}}, Conds: []*E{Name("k"), Bin("==", &E{K: "name", Parts: []Ident{id, {Name: "a"}}}, Name("$right", "a"))}})
@@ -371,6 +382,11 @@ func generate(w *mon.W) {
 				}
 				c := &Case{Skel: sk.name, Kind: "id", Fill: f}
 				w.Do(fmt.Sprintf("%s|%s", sk.name, f), func(r *mon.R) { Check(c, r) })
+			}
+			// plain names written without back quotes (a bare join key, a bare column)
+			for _, f := range []string{"zz9", "K1", "_u", "x1", "Title", "k3x", "b", "k"} {
+				c := &Case{Skel: sk.name, Kind: "id", Fill: f, Bare: true}
+				w.Do(fmt.Sprintf("%s|bare|%s", sk.name, f), func(r *mon.R) { Check(c, r) })
 			}
 			// plain names that are also bound by lets written before the query
 			for _, f := range []string{"a", "t", "n", "T", "k", "x1", "_u", "count", "title", "null", "true", "stacked"} {
@@ -554,7 +570,7 @@ func compileWith(sk *skel, c *Case, fill string) (*compiled, string) {
 	case "str":
 		h = StrLit(fill, c.DQ)
 	case "id":
-		id = Ident{Name: fill, Quoted: true}
+		id = Ident{Name: fill, Quoted: !c.Bare}
 	case "both":
 		id = Ident{Name: fill, Quoted: true}
 		h = StrLit(strings.ReplaceAll(fill, "`", "``"), c.DQ)
